@@ -549,9 +549,10 @@ open MW.Lemmas.Deepen3 MW.Lemmas.Deepen4 in
     all of it, the restored wallet's books up to its cursor), exact key cache, the rescan queued whenever the stored
     status says "importing"; inside a removal window `JR` = C08's in-progress invariant `Mid`, the wallet flagged, the
     removal queued — or, after the finishing iteration, `JQ` for the table without the wallet. -/
-theorem crash_tasks_inv {cfg : Cfg} {G : Block} (E : StaticOK cfg.st G) (hG : G.txs = []) (hb : cfg.batch > 0) (cr : Bool)
+theorem crash_tasks_inv {cfg : Cfg} {G : Block} (E : StaticOK cfg.st G) (hG : G.txs = []) (hb : cfg.batch > 0)
+    (hl : cfg.limit > 0) (cr : Bool)
     (evs : List EvT) (x : SysQ) (k : SkelT) (hJ : JT cfg G x k) (hR : RunOKT cfg G k evs) (hg : GuardT cfg cr x evs) :
-    JT cfg G (runT cfg cr x evs) (skRunT cfg k evs) := JT_run E hG hb cr evs x k hJ hR hg
+    JT cfg G (runT cfg cr x evs) (skRunT cfg k evs) := JT_run E hG hb hl cr evs x k hJ hR hg
 
 open MW.Lemmas.Deepen3 MW.Lemmas.Deepen4 in
 /-- **crash_equiv_tasks** (round 4) — `crash_equiv` for histories WITH import / removal events.  One history of node
@@ -564,14 +565,16 @@ open MW.Lemmas.Deepen3 MW.Lemmas.Deepen4 in
     INTERLEAVINGS COVERED (`StepOKT`, `WindowOK`): one task at a time (the code answers ErrTooManyTask to a second);
     inside an IMPORT window: crashes at ANY commit boundary — follower lagging, on a stale branch, rescan at any cursor —
     node extensions and reorganisations to any branch (above / at / below the cursor), batches against a node that has
-    moved on (put off by the followed-chain check), unconfirmed transactions, handler steps for notifications that
-    are on the node's chain (no stale notification handled inside the window); inside a REMOVAL window: node events,
-    iterations, crashes while no notification is pending — no handler step (C08 has no follower theorem for a partly
-    deleted wallet), no unconfirmed transaction; no CreateWallet / NewAddress inside a window.  STATE HYPOTHESES
-    (`GuardT`, for removals only): at RemoveWallet the credit bucket has one entry per key and no unmined credit belongs
-    to a transaction of the followed chain (C08's two open follower invariants); `removeDrain`'s loop completes. -/
+    moved on (put off by the followed-chain check), unconfirmed transactions, handler steps for ANY queued
+    notification — stale ones included (they fail and change nothing, or roll back onto the followed chain) —
+    CreateWallet, NewAddress of any wallet but the one being restored (for which the code refuses it); inside a REMOVAL
+    window: node events, iterations, crashes while no notification is pending, the drain (which provably terminates) —
+    no handler step (C08 has no follower theorem for a partly deleted wallet), no unconfirmed transaction, no
+    CreateWallet / NewAddress.  STATE HYPOTHESIS (`GuardT`, for removals only): at RemoveWallet the credit bucket has one
+    entry per key and no unmined credit belongs to a transaction of the followed chain (C08's two open follower
+    invariants). -/
 theorem crash_equiv_tasks {cfg : Cfg} {G : Block} (E : StaticOK cfg.st G) (hG : G.txs = []) (hb : cfg.batch > 0)
-    (evs : List EvT) (x0 : SysQ) (k0 : SkelT) (hJ : JT cfg G x0 k0) (hR : RunOKT cfg G k0 evs)
+    (hl : cfg.limit > 0) (evs : List EvT) (x0 : SysQ) (k0 : SkelT) (hJ : JT cfg G x0 k0) (hR : RunOKT cfg G k0 evs)
     (hg1 : GuardT cfg true x0 evs) (hg2 : GuardT cfg false x0 evs)
     (hidle : (skRunT cfg k0 evs).busy = none) (hq : (runT cfg false x0 evs).queue = []) :
     (runT cfg true x0 evs).queue = [] ∧
@@ -591,7 +594,7 @@ theorem crash_equiv_tasks {cfg : Cfg} {G : Block} (E : StaticOK cfg.st G) (hG : 
       AMap.get (runT cfg true x0 evs).P.led.balance w = AMap.get (runT cfg false x0 evs).P.led.balance w ∧
       Lemmas.Deepen3.readyB (runT cfg true x0 evs).P.led w = true ∧
       Lemmas.Deepen3.readyB (runT cfg false x0 evs).P.led w = true) :=
-  Lemmas.Deepen4.crash_equiv_tasks E hG hb evs x0 k0 hJ hR hg1 hg2 hidle hq
+  Lemmas.Deepen4.crash_equiv_tasks E hG hb hl evs x0 k0 hJ hR hg1 hg2 hidle hq
 
 open MW.Lemmas.Deepen3 MW.Lemmas.Deepen4 in
 /-- a history of round-3 events is a history of this world: `crash_equiv` is the task-free instance -/
@@ -610,15 +613,15 @@ theorem import_window_crash {cfg : Cfg} {G : Block} (E : StaticOK cfg.st G) {x :
 open MW.Lemmas.Deepen3 MW.Lemmas.Deepen4 in
 /-- **resumption_anywhere_full** (round 4).  The state `x` is the one ANY history reaches inside an import window —
     rescan at any cursor, follower lagging or on a branch the node has left, batches already put off, any number of
-    earlier crashes at any commit boundaries — the notifications still to be handled being on the node's chain.
+    earlier crashes at any commit boundaries.
     Run A is not interrupted: the follower works off its queue, then the worker finishes the rescan.  Run B crashes
     NOW: Start succeeds (resync, catch-up on the joined store), `initTaskChan` queues the rescan again, the worker
     finishes it.  Both end with nothing queued, the same keystore, key cache, tip copy, synced-to, extensionally equal
     confirmed buckets, equal balances, every wallet — the restored one included — ready. -/
 theorem resumption_anywhere_full {cfg : Cfg} {G : Block} (E : StaticOK cfg.st G) (hG : G.txs = []) (hb : cfg.batch > 0)
-    (evs : List EvT) (x0 : SysQ) (k0 : SkelT) (hJ : JT cfg G x0 k0) (hR : RunOKT cfg G k0 evs)
+    (hl : cfg.limit > 0) (evs : List EvT) (x0 : SysQ) (k0 : SkelT) (hJ : JT cfg G x0 k0) (hR : RunOKT cfg G k0 evs)
     (hg : GuardT cfg true x0 evs) (w : Wid) (hbusy : (skRunT cfg k0 evs).busy = some (.imp w))
-    (hon : QueueOnChain (skRunT cfg k0 evs)) (fuel : Nat) (hfuel : (skRunT cfg k0 evs).base.chain.length + 1 ≤ fuel) :
+    (fuel : Nat) (hfuel : (skRunT cfg k0 evs).base.chain.length + 1 ≤ fuel) :
     let x := runT cfg true x0 evs
     let A := stepT cfg false (handleAll cfg false x) (.importDrain w fuel)
     let B := stepT cfg true (stepQ cfg.st cfg.n true x .crash) (.importDrain w fuel)
@@ -630,13 +633,13 @@ theorem resumption_anywhere_full {cfg : Cfg} {G : Block} (E : StaticOK cfg.st G)
     AMap.Equiv B.P.led.sync A.P.led.sync ∧ B.P.led.syncedTo = A.P.led.syncedTo ∧ B.V.led.best = A.V.led.best ∧
     (∀ w' ∈ walletsOf A.P.ks, AMap.get B.P.led.balance w' = AMap.get A.P.led.balance w' ∧
       Lemmas.Deepen3.readyB B.P.led w' = true ∧ Lemmas.Deepen3.readyB A.P.led w' = true) :=
-  Lemmas.Deepen4.resumption_anywhere_full E hG hb evs x0 k0 hJ hR hg w hbusy hon fuel hfuel
+  Lemmas.Deepen4.resumption_anywhere_full E hG hb hl evs x0 k0 hJ hR hg w hbusy fuel hfuel
 
 open MW.Lemmas.Deepen3 MW.Lemmas.Deepen4 in
 /-- … the same from any state that satisfies the window invariant (what the above instantiates) -/
 theorem resumption_anywhere_import {cfg : Cfg} {G : Block} (E : StaticOK cfg.st G) (hb : cfg.batch > 0) {x : SysQ}
     {k : Skel} {w : Wid} (hJ : JI cfg G x k w) (hshort : ∀ c ∈ k.hist, c.length + cfg.batch < 2 ^ 64)
-    (hon : ∀ b ∈ x.queue, k.chain[b.height]? = some b) (fuel : Nat) (hfuel : k.chain.length + 1 ≤ fuel) :
+    (fuel : Nat) (hfuel : k.chain.length + 1 ≤ fuel) :
     (crash (envAt cfg.st x.chain) cfg.n x.P).ok = true ∧
     (importDone (stepQ cfg.st cfg.n true x .crash).P w = false →
       (stepQ cfg.st cfg.n true x .crash).V.tasks.contains (.imp w) = true) ∧
@@ -644,19 +647,18 @@ theorem resumption_anywhere_import {cfg : Cfg} {G : Block} (E : StaticOK cfg.st 
     JQ cfg.st G (stepT cfg true (stepQ cfg.st cfg.n true x .crash) (.importDrain w fuel)) k ∧
     (stepT cfg false (handleAll cfg false x) (.importDrain w fuel)).queue = [] ∧
     (stepT cfg true (stepQ cfg.st cfg.n true x .crash) (.importDrain w fuel)).queue = [] :=
-  resumption_from_JI E hb hJ hshort hon fuel hfuel
+  resumption_from_JI E hb hJ hshort fuel hfuel
 
 open MW.Lemmas.Deepen3 MW.Lemmas.Deepen4 in
 /-- **resumption_anywhere_remove** (round 4): a removal interrupted between ANY two iterations while no notification
     is pending — run A: the worker finishes; run B: crash now (Start leaves the store alone and queues the removal
-    again), then the worker finishes.  Provided both loops complete within the fuel, both end in round 3's invariant
-    for the keystore table WITHOUT the wallet, with the same confirmed books. -/
-theorem resumption_anywhere_remove {cfg : Cfg} {G : Block} (E : StaticOK cfg.st G) {x : SysQ} {k : Skel} {w : Wid}
-    (hJ : JR cfg G x k w) (hq : x.queue = []) (fuel : Nat)
-    (hA : guardEv cfg x (.removeDrain w fuel))
-    (hB : guardEv cfg (stepQ cfg.st cfg.n true x .crash) (.removeDrain w fuel)) :
-    let A := stepT cfg false x (.removeDrain w fuel)
-    let B := stepT cfg true (stepQ cfg.st cfg.n true x .crash) (.removeDrain w fuel)
+    again), then the worker finishes.  Both loops complete (`removeLoop_total`: under C08's `Mid` no iteration fails and
+    every non-finishing one deletes a credit of the wallet) and both end in round 3's invariant for the keystore table
+    WITHOUT the wallet, with the same confirmed books. -/
+theorem resumption_anywhere_remove {cfg : Cfg} {G : Block} (E : StaticOK cfg.st G) (hl : cfg.limit > 0) {x : SysQ}
+    {k : Skel} {w : Wid} (hJ : JR cfg G x k w) (hq : x.queue = []) :
+    let A := stepT cfg false x (.removeDrain w)
+    let B := stepT cfg true (stepQ cfg.st cfg.n true x .crash) (.removeDrain w)
     B.queue = [] ∧ A.queue = [] ∧ B.chain = A.chain ∧ B.P.ks = A.P.ks ∧ B.V.keys = A.V.keys ∧
     AMap.Equiv B.P.led.credits A.P.led.credits ∧ AMap.Equiv B.P.led.unspent A.P.led.unspent ∧
     AMap.Equiv B.P.led.debits A.P.led.debits ∧ AMap.Equiv B.P.led.game A.P.led.game ∧
@@ -664,12 +666,20 @@ theorem resumption_anywhere_remove {cfg : Cfg} {G : Block} (E : StaticOK cfg.st 
     AMap.Equiv B.P.led.sync A.P.led.sync ∧ B.P.led.syncedTo = A.P.led.syncedTo ∧ B.V.led.best = A.V.led.best ∧
     (∀ w' ∈ walletsOf A.P.ks, AMap.get B.P.led.balance w' = AMap.get A.P.led.balance w' ∧
       Lemmas.Deepen3.readyB B.P.led w' = true ∧ Lemmas.Deepen3.readyB A.P.led w' = true) :=
-  Lemmas.Deepen4.resumption_anywhere_remove E hJ hq fuel hA hB
+  Lemmas.Deepen4.resumption_anywhere_remove E hl hJ hq
+
+open MW.Lemmas.Deepen3 MW.Lemmas.Deepen4 in
+/-- **removal_drain_total** (round 4): inside a removal window the worker's loop always completes (fuel = number of
+    stored credits + 1) and closes the window -/
+theorem removal_drain_total {cfg : Cfg} {G : Block} (hl : cfg.limit > 0) (cr : Bool) {x : SysQ} {k : Skel} {w : Wid}
+    (hJ : JR cfg G x k w) :
+    JQ cfg.st G (stepT cfg cr x (.removeDrain w)) { k with ks := AMap.erase k.ks w } := JR_removeDrain hl cr hJ
 
 /-- NON-VACUITY of round 4 (`MW.Lemmas.Deepen4Ex`): G–b1–c2 / e2, ImportWallet w3 (manages "a3") with the follower at
     c2, one batch (cursor 1), the node reorganises to e2 (coinbase pays "a3" AND w1's "a2"), a batch is put off,
-    CRASH (e2 queued, wallet on the stale c2, w3 importing from 1), batch, handle, importDrain, RemoveWallet w1, one
-    iteration (step size 1), CRASH, removeDrain: all hypotheses hold … -/
+    CreateWallet w2, NewAddress w1, the node goes back to c2 and again to e2, CRASH (e2, c2, e2 queued in the run that
+    never stops; wallet on c2, w3 importing from 1), batch, three handler steps (the second on a STALE notification),
+    importDrain, RemoveWallet w1, one iteration (step size 1), CRASH, removeDrain: all hypotheses hold … -/
 example : Lemmas.Deepen3.StaticOK Lemmas.Deepen4.exCfg.st Lemmas.Ledger.hxG := Lemmas.Deepen4.ex4StaticOK
 example : Lemmas.Deepen4.JT Lemmas.Deepen4.exCfg Lemmas.Ledger.hxG Lemmas.Deepen3.exX0 Lemmas.Deepen4.exK0T :=
   Lemmas.Deepen4.exJT0
@@ -680,12 +690,12 @@ example (cr : Bool) : Lemmas.Deepen4.GuardT Lemmas.Deepen4.exCfg cr Lemmas.Deepe
 example : (Lemmas.Deepen4.skRunT Lemmas.Deepen4.exCfg Lemmas.Deepen4.exK0T Lemmas.Deepen4.exEvsT).busy = none ∧
     (Lemmas.Deepen4.runT Lemmas.Deepen4.exCfg false Lemmas.Deepen3.exX0 Lemmas.Deepen4.exEvsT).queue = [] :=
   ⟨by rw [Lemmas.Deepen4.exSkelT], Lemmas.Deepen4.exQuietTT⟩
-/-- … and the crash at event 9 is taken at a non-quiet point inside the import window (the two runs differ there:
+/-- … and the crash at event 13 is taken at a non-quiet point inside the import window (the two runs differ there:
     the crashing run has reorganised onto e2 inside Start, kept the rescan's cursor and has the rescan queued again);
-    at the end w3 is the only wallet, ready, with the coin the rescan picked up -/
-example : (Lemmas.Deepen4.runT Lemmas.Deepen4.exCfg false Lemmas.Deepen3.exX0 (Lemmas.Deepen4.exEvsT.take 9)).V.led.best = ⟨2, "c2"⟩ ∧
-    (Lemmas.Deepen4.runT Lemmas.Deepen4.exCfg true Lemmas.Deepen3.exX0 (Lemmas.Deepen4.exEvsT.take 9)).V.led.best = ⟨2, "e2"⟩ ∧
-    (Lemmas.Deepen4.runT Lemmas.Deepen4.exCfg true Lemmas.Deepen3.exX0 (Lemmas.Deepen4.exEvsT.take 9)).V.tasks = [.imp "w3"] ∧
+    at the end w2 and w3 are the only wallets, w3 ready with the coin the rescan picked up -/
+example : (Lemmas.Deepen4.runT Lemmas.Deepen4.exCfg false Lemmas.Deepen3.exX0 (Lemmas.Deepen4.exEvsT.take 13)).V.led.best = ⟨2, "c2"⟩ ∧
+    (Lemmas.Deepen4.runT Lemmas.Deepen4.exCfg true Lemmas.Deepen3.exX0 (Lemmas.Deepen4.exEvsT.take 13)).V.led.best = ⟨2, "e2"⟩ ∧
+    (Lemmas.Deepen4.runT Lemmas.Deepen4.exCfg true Lemmas.Deepen3.exX0 (Lemmas.Deepen4.exEvsT.take 13)).V.tasks = [.imp "w3"] ∧
     (Lemmas.Deepen4.runT Lemmas.Deepen4.exCfg true Lemmas.Deepen3.exX0 Lemmas.Deepen4.exEvsT).P.ks = Lemmas.Deepen4.exKsE ∧
     AMap.get (Lemmas.Deepen4.runT Lemmas.Deepen4.exCfg true Lemmas.Deepen3.exX0 Lemmas.Deepen4.exEvsT).P.led.balance "w3" = some 30 := by
   decide
